@@ -20,7 +20,7 @@ CLAIMS = {
    note="Trusts go/version.Compare's documented meaning and go/types' FileVersions; does not decide what bounds individual checks pass.",
    technique="SSA value-origin (def-use) analysis + finite abstract evaluation of a comparison-only function"),
  "C19": dict(
-   text="Only one clause of this property is decided. NOT decided: that the reported offsets, sizes, alignments and padding equal the compiler's for every struct type, that the listing has no gaps or overlaps, that the optimised layout is valid and never larger — all of these are run-time arithmetic against the compiler as oracle. Decided (a necessary condition of 'outputs a permutation of the input fields' and of 'covering the struct'): optimize only sorts its argument through a sort.Interface whose Swap is an exact transposition and whose Len is the whole list; pad (and structlayout's sizes) emit every input field on every path through the loop body and flag every additional element IsPadding; main prints pad's result of the list optimize sorted.",
+   text="Only one clause of this property is decided. NOT decided: that the reported offsets, sizes, alignments and padding equal the compiler's for every struct type, that the listing has no gaps or overlaps, that the optimised layout is valid and never larger — all of these are run-time arithmetic against the compiler as oracle. Decided (a necessary condition of 'outputs a permutation of the input fields' and of 'covering the struct'): optimize only sorts its argument through a sort.Interface whose Swap is an exact transposition and whose Len is the whole list; pad (and structlayout's sizes) emit every input field on every path through the loop body and flag every additional element IsPadding; main prints pad's result of the list optimize sorted. Also decided (a necessary condition of 'no gaps or overlaps' for nested structs): offset arithmetic in structlayout's sizes and in pad keeps its frame of reference — offsets from the start of the outermost struct are never subtracted from, added to or compared with quantities relative to an inner struct (an abstract interpretation over two units; this is the rule that the lost trailing padding of nested structs, F20, violates).",
    ref="§4 C19",
    note="sort.Sort is trusted to call only Len/Less/Swap. gcsizes' arithmetic, Less' ordering and pad's offsets are not examined; an edit there is out of reach of this check.",
    technique="SSA must-pass-through (every loop iteration emits its element) + value-origin checks of appended elements and of the Swap stores"),
